@@ -250,6 +250,17 @@ def adjust_to_obscuring_feature(elevation: Tuple[float, float]) -> float:
     )
 
 
+def adjustment_for_elevation(observer: Observer) -> float:
+    """Calculate the number of degrees to add to a zenith to adjust for the
+    observer's elevation (a height above the horizon or an obscuring feature)
+    """
+    if isinstance(observer.elevation, float) and observer.elevation > 0.0:
+        return adjust_to_horizon(observer.elevation)
+    if isinstance(observer.elevation, tuple):
+        return adjust_to_obscuring_feature(observer.elevation)
+    return 0.0
+
+
 def time_of_transit(
     observer: Observer,
     date: datetime.date,
@@ -868,7 +879,7 @@ def sunrise(
     except ValueError as exc:
         if exc.args[0] == "math domain error":
             z = zenith(observer, noon(observer, date))
-            if z > 90.0:
+            if z > 90.0 + SUN_APPARENT_RADIUS + adjustment_for_elevation(observer):
                 msg = "Sun is always below the horizon on this day, at this location."
             else:
                 msg = "Sun is always above the horizon on this day, at this location."
@@ -939,7 +950,7 @@ def sunset(
     except ValueError as exc:
         if exc.args[0] == "math domain error":
             z = zenith(observer, noon(observer, date))
-            if z > 90.0:
+            if z > 90.0 + SUN_APPARENT_RADIUS + adjustment_for_elevation(observer):
                 msg = "Sun is always below the horizon on this day, at this location."
             else:
                 msg = "Sun is always above the horizon on this day, at this location."
